@@ -59,6 +59,46 @@ pub fn solution_text(s: &Option<Solution<ChalkIr>>) -> String {
     }
 }
 
+/// Structured form of a solution: substitution entries and lifetime constraints as abstract terms.
+pub fn solution_detail(s: &Option<Solution<ChalkIr>>) -> Value {
+    use crate::terms::{arg_json, lt_json};
+    use chalk_ir::{DomainGoal, GoalData, VariableKind, TyVariableKind, WhereClause};
+    let kinds = |b: &chalk_ir::CanonicalVarKinds<ChalkIr>| -> Vec<Value> {
+        b.iter(ChalkIr)
+            .map(|k| {
+                let kind = match &k.kind {
+                    VariableKind::Ty(TyVariableKind::General) => "ty",
+                    VariableKind::Ty(TyVariableKind::Integer) => "int",
+                    VariableKind::Ty(TyVariableKind::Float) => "float",
+                    VariableKind::Lifetime => "lt",
+                    VariableKind::Const(_) => "const",
+                };
+                json!({"kind": kind, "u": k.skip_kind().counter})
+            })
+            .collect()
+    };
+    match s {
+        None => json!(null),
+        Some(Solution::Unique(c)) => {
+            let subst: Vec<Value> = c.value.subst.iter(ChalkIr).map(arg_json).collect();
+            let mut cons: Vec<Value> = Vec::new();
+            for ie in c.value.constraints.iter(ChalkIr) {
+                match &ie.goal {
+                    chalk_ir::Constraint::LifetimeOutlives(a, b) => cons.push(json!({"c": "outlives", "a": lt_json(a), "b": lt_json(b)})),
+                    chalk_ir::Constraint::TypeOutlives(t, l) => cons.push(json!({"c": "tyoutlives", "t": crate::terms::ty_json(t), "l": lt_json(l)})),
+                }
+            }
+            let _ = (DomainGoal::<ChalkIr>::Compatible, GoalData::<ChalkIr>::CannotProve, WhereClause::<ChalkIr>::LifetimeOutlives);
+            json!({"subst": subst, "constraints": cons, "binders": kinds(&c.binders)})
+        }
+        Some(Solution::Ambig(Guidance::Definite(c))) | Some(Solution::Ambig(Guidance::Suggested(c))) => {
+            let subst: Vec<Value> = c.value.iter(ChalkIr).map(arg_json).collect();
+            json!({"subst": subst, "constraints": [], "binders": kinds(&c.binders)})
+        }
+        Some(Solution::Ambig(Guidance::Unknown)) => json!(null),
+    }
+}
+
 fn panic_text(p: Box<dyn std::any::Any + Send>) -> String {
     if let Some(i) = p.downcast_ref::<Injected>() {
         format!("injected@{}", i.0)
@@ -108,6 +148,7 @@ fn run_job_inner(job: &Value) -> String {
     let trace = job["trace"].as_bool().unwrap_or(false);
     let defs = job["defs"].as_bool().unwrap_or(false);
     let budget = job["budget"].as_u64();
+    let detail = job["detail"].as_bool().unwrap_or(false);
     let mut solver: Box<dyn Solver<ChalkIr>> = choice.into_solver();
     let wdb = WrapDb::new(&db);
     let mut results: Vec<Value> = Vec::new();
@@ -159,11 +200,19 @@ fn run_job_inner(job: &Value) -> String {
             let outcome = catch_unwind(AssertUnwindSafe(|| match kind {
                 "solve" => {
                     let s = solver.solve(&wdb, &peeled);
-                    json!({"class": solution_class(&s), "text": solution_text(&s)})
+                    if detail {
+                        json!({"class": solution_class(&s), "text": solution_text(&s), "detail": solution_detail(&s)})
+                    } else {
+                        json!({"class": solution_class(&s), "text": solution_text(&s)})
+                    }
                 }
                 "limited" => {
                     let s = solver.solve_limited(&wdb, &peeled, &should_continue);
-                    json!({"class": solution_class(&s), "text": solution_text(&s)})
+                    if detail {
+                        json!({"class": solution_class(&s), "text": solution_text(&s), "detail": solution_detail(&s)})
+                    } else {
+                        json!({"class": solution_class(&s), "text": solution_text(&s)})
+                    }
                 }
                 "multi" => {
                     let max = op["max"].as_u64().unwrap_or(10);
